@@ -462,7 +462,8 @@ sch_yield_point(void) {
 }
 
 /* hooks H3 (db_impl.c, kinds 0/1) and H4 (skiplist.c, kind 2 = release store that publishes a
- * node, kind 3 = acquire load).  cfg.hook_points is a mask: 1 = H3, 2 = H4 stores, 4 = H4 loads */
+ * node, kind 3 = acquire load).  cfg.hook_points is a mask: 1 = H3, 2 = H4 stores, 4 = H4 loads,
+ * 8 = a point before every pthread_cond_signal / broadcast */
 void lcdb_verif_point(const void *obj, int kind);
 void
 lcdb_verif_point(const void *obj, int kind) {
@@ -512,11 +513,26 @@ vf_mutex_destroy(pthread_mutex_t *pm) {
   return 0;
 }
 
+/* a synchronisation object used after pthread_*_destroy: reported like a sanitizer finding (the orchestrator
+ * attributes the abort to the announced case), not as a harness error */
+static void
+sync_misuse(const char *what) {
+  fprintf(stderr, "==SyncMisuse== %s (thread %d)\nSUMMARY: SyncSanitizer: %s\n", what, cur, what);
+  fflush(stderr);
+  abort();
+}
+
+static int
+cond_is_destroyed(const pthread_cond_t *pc) {
+  const volatile unsigned char *b = (const volatile unsigned char *)pc;   /* also an ASan-checked read of the object */
+  return b[0] == 0xdd && b[1] == 0xdd && b[2] == 0xdd && b[3] == 0xdd && b[sizeof(*pc) - 1] == 0xdd;
+}
+
 static void
 acquire_loop(vmutex_t *m) {
   while (m->owner != 0) {
     if (m->owner == -1)
-      vh_die("lock of a destroyed mutex");
+      sync_misuse("lock of a destroyed mutex");
     if (m->owner == cur + 1) {
       snprintf(block_text, sizeof(block_text), "thread %d relocks a mutex it holds", cur);
       sch_abort_run(SCH_DEADLOCK);
@@ -621,6 +637,10 @@ vf_cond_signal(pthread_cond_t *pc) {
   int w[MAXT], n = 0, t, c;
   if (!sch_active)
     return 0;
+  if (cur != HOME && (cfg.hook_points & 8))
+    point(PT_YIELD);   /* a switch between the unlock that usually precedes a signal and the signal itself */
+  if (cond_is_destroyed(pc))
+    sync_misuse("pthread_cond_signal on a destroyed condition variable");
   for (t = 0; t < nthr; t++)
     if (thr[t].state == T_BLK_COND && thr[t].wait_obj == pc)
       w[n++] = t;
@@ -637,6 +657,10 @@ vf_cond_broadcast(pthread_cond_t *pc) {
   int t;
   if (!sch_active)
     return 0;
+  if (cur != HOME && (cfg.hook_points & 8))
+    point(PT_YIELD);
+  if (cond_is_destroyed(pc))
+    sync_misuse("pthread_cond_broadcast on a destroyed condition variable");
   for (t = 0; t < nthr; t++)
     if (thr[t].state == T_BLK_COND && thr[t].wait_obj == pc)
       wake(t);
